@@ -637,6 +637,101 @@ fn c11_case(n: usize, lowlevel: bool, order: &[usize], inside: &[bool], comp: Co
     CaseOut { id, outcome: format!("ok:unavailable={}", assign.iter().filter(|a| a.is_some()).count()), violation: None }
 }
 
+/// Every content pack recorded with the SAME location string: packs held inside the entry-point
+/// file are found by their identity whatever the (now stale) location says, the others are
+/// unavailable (their files are removed) and must be MISSING with the rewritten description —
+/// in particular when the missing pack is asked before an available one of the same location.
+fn sameloc_case(n: usize, inside: &[bool], comp: Comp) -> CaseOut {
+    let l = logical_n(n);
+    let base = jbkmc::scratch_dir("sameloc");
+    let d = base.path().join("c");
+    std::fs::create_dir_all(&d).unwrap();
+    let id = format!("same-location n={n} inside={inside:?} comp={}", comp.name());
+    let case = json!({"engine":"packmc","sub":"c11","sameloc":true,"n":n,"inside":inside,"comp":comp.name()});
+    let fail = |k: &str, w: String| CaseOut { id: id.clone(), outcome: "violation".into(), violation: Some((format!("C11 {k}"), w, case.clone())) };
+    let created = match create_lowlevel(&l, comp, &d, &[]) {
+        Ok(c) => c,
+        Err(e) => return fail("creation failed", e),
+    };
+    let pristine_manifest = dump_manifest(&created.path);
+    let mut files = vec![created.path.clone(), d.join("dir.jbkd")];
+    for k in 0..n {
+        if inside[k] {
+            files.push(d.join(format!("pack{}.jbkc", k + 1)));
+        }
+    }
+    let entry = d.join("entry.jbk");
+    if let Err(e) = concat(&files, &entry) {
+        return fail("concat failed", e);
+    }
+    const LOC: &str = "packs.jbkc";
+    for k in 0..n {
+        let rec = pristine_manifest["packs"].as_array().and_then(|a| a.iter().find(|p| p["id"] == json!(k + 1))).cloned().unwrap_or(J::Null);
+        let Some(u) = rec["uuid"].as_str().and_then(|u| uuid::Uuid::parse_str(u).ok()) else {
+            return fail("MACHINERY manifest dump without uuid", format!("{rec}"));
+        };
+        match jbkmc::catch(|| jbk::tools::set_location(&entry, u, jbk::SmallString::from(LOC))) {
+            Ok(Ok(Some(_))) => {}
+            other => return fail("set_location on the entry-point file fails", format!("pack {}: {other:?}", k + 1)),
+        }
+        let _ = std::fs::remove_file(d.join(format!("pack{}.jbkc", k + 1)));
+    }
+    let opts = opts_for(&l);
+    let dump = match jbkmc::catch(|| dump_container(&entry, &opts)) {
+        Ok(d) => d,
+        Err(p) => return fail(&format!("panic {}", jbkmc::panic_site(&p)), p),
+    };
+    if dump["open"] != json!("ok") {
+        return fail("container does not open with unavailable content packs", format!("{}", dump["open"]));
+    }
+    let model = model_dump(&l);
+    let all_items: Vec<(usize, usize)> = std::iter::once((1, l.contents.len())).chain(l.extra_packs.iter().enumerate().map(|(k, e)| (k + 2, e.len()))).collect();
+    for (pid, count) in all_items {
+        let rec = pristine_manifest["packs"].as_array().and_then(|a| a.iter().find(|p| p["id"] == json!(pid))).cloned().unwrap_or(J::Null);
+        for i in 0..count {
+            let node = &dump["contents"][format!("{pid}/{i}")];
+            if inside[pid - 1] {
+                if node != &model["contents"][format!("{pid}/{i}")] {
+                    return fail("content of an available pack reads differently (packs sharing one location string)", format!("{pid}/{i}: {node}"));
+                }
+            } else if i == 0 {
+                match node.get("missing") {
+                    Some(m) if m["pack_id"] == json!(pid) && m["uuid"] == rec["uuid"] && m["location"] == json!(LOC) => {}
+                    Some(m) => return fail("MISSING carries a wrong pack description", format!("{pid}/{i}: {m}")),
+                    None => return fail("content of an unavailable pack (Removed) yields something else instead of MISSING", format!("{pid}/{i}: {node}")),
+                }
+            }
+        }
+    }
+    if dump["check"] != json!(true) {
+        return fail("check() of the container with unavailable packs is not Ok(true)", format!("{}", dump["check"]));
+    }
+    // the check covers every pack that is present: damage one stored byte of each pack held inside
+    let orig = std::fs::read(&entry).unwrap();
+    for k in 0..n {
+        if !inside[k] {
+            continue;
+        }
+        let rec = pristine_manifest["packs"].as_array().and_then(|a| a.iter().find(|p| p["id"] == json!(k + 1))).cloned().unwrap_or(J::Null);
+        let Some(u) = rec["uuid"].as_str().and_then(|u| uuid::Uuid::parse_str(u).ok()) else { continue };
+        // the pack's header (magic 'jbk' + kind 'c', uuid at +10) inside the entry-point file
+        let Some(at) = orig.windows(26).position(|w| &w[0..4] == b"jbkc" && &w[10..26] == u.as_bytes()) else { continue };
+        let pos = at + 130;
+        if pos >= orig.len() {
+            continue;
+        }
+        let mut b = orig.clone();
+        b[pos] ^= 0x40;
+        std::fs::write(&entry, &b).unwrap();
+        let chk = jbkmc::catch(|| jbk::reader::Container::new(&entry).and_then(|c| c.check()));
+        std::fs::write(&entry, &orig).unwrap();
+        if let Ok(Ok(true)) = chk {
+            return fail("check() passes although a present content pack is damaged (packs sharing one location string)", format!("pack {} damaged at byte {pos} of the entry-point file", k + 1));
+        }
+    }
+    CaseOut { id, outcome: format!("ok:same-location unavailable={}", inside.iter().filter(|x| !**x).count()), violation: None }
+}
+
 /// Content packs whose ids are not 1..n: containers built with the low-level creators, ids taken
 /// from `ids` (in that listing order). Every address (id, i) must resolve, ids not listed must be
 /// unknown, and removing one pack file must turn exactly that pack's contents into MISSING.
@@ -741,7 +836,7 @@ fn c11(args: &Args) -> ! {
     let mut rep = Report::new(
         "packmc",
         "C11",
-        "containers with n in {1,2,3} (thorough: 4) content packs in separate files, built by BasicCreator NoConcat+extras and by the low-level creators with the manifest listing the directory and the content packs in every order (n<=2, thorough n<=3) or in identity/reversed/rotated orders; every subset of the content packs x every way {removed, replaced by a directory, replaced by a different valid content pack with the same content count} per member (full product); the same with every non-empty subset of the packs also held inside the entry-point file (concat), where the file at the recorded location must not matter; plus containers whose content packs carry ids that are not 1..n ({5}, {1,5}, {5,1}, {2,3}, {300}, {1,300,2}, {256,255}, {65535,1}), each pack removed in turn; oracle: opens, every entry as the model, available contents read, unavailable ones MISSING with the recorded uuid/id/location, check() true, unknown pack id -> none; non-trivial = at least one pack unavailable",
+        "containers with n in {1,2,3} (thorough: 4) content packs in separate files, built by BasicCreator NoConcat+extras and by the low-level creators with the manifest listing the directory and the content packs in every order (n<=2, thorough n<=3) or in identity/reversed/rotated orders; every subset of the content packs x every way {removed, replaced by a directory, replaced by a different valid content pack with the same content count} per member (full product); the same with every non-empty subset of the packs also held inside the entry-point file (concat), where the file at the recorded location must not matter; plus containers whose content packs carry ids that are not 1..n ({5}, {1,5}, {5,1}, {2,3}, {300}, {1,300,2}, {256,255}, {65535,1}), each pack removed in turn; plus containers (n = 2, 3) whose content packs are all recorded with one and the same location string (tools::set_location), every subset held inside the entry-point file and the others removed: packs inside read, the others are MISSING with the rewritten description, check() true and false once a pack inside is damaged; oracle: opens, every entry as the model, available contents read, unavailable ones MISSING with the recorded uuid/id/location, check() true, unknown pack id -> none; non-trivial = at least one pack unavailable",
     );
     let t = args.thorough();
     let ways = [None, Some(Unavail::Removed), Some(Unavail::Directory), Some(Unavail::OtherPack)];
@@ -794,7 +889,7 @@ fn c11(args: &Args) -> ! {
     if let Some(p) = &args.replay {
         let j: J = serde_json::from_str(&std::fs::read_to_string(p).expect("replay file")).unwrap();
         let case = if j.get("case").is_some() { &j["case"] } else { &j };
-        let assign: Vec<Option<Unavail>> = case["unavailable"].as_array().unwrap().iter().map(|x| match x.as_str() {
+        let assign: Vec<Option<Unavail>> = case["unavailable"].as_array().cloned().unwrap_or_default().iter().map(|x| match x.as_str() {
             Some("Removed") => Some(Unavail::Removed),
             Some("Directory") => Some(Unavail::Directory),
             Some("OtherPack") => Some(Unavail::OtherPack),
@@ -802,7 +897,7 @@ fn c11(args: &Args) -> ! {
         }).collect();
         let order: Vec<usize> = case["order"].as_array().map(|a| a.iter().map(|x| x.as_u64().unwrap() as usize).collect()).unwrap_or_default();
         let inside: Vec<bool> = case["inside"].as_array().map(|a| a.iter().map(|x| x.as_bool().unwrap()).collect()).unwrap_or_default();
-        cases = vec![(case["n"].as_u64().unwrap() as usize, case["lowlevel"].as_bool().unwrap(), order, inside, Comp::parse(case["comp"].as_str().unwrap()), assign)];
+        cases = if case.get("sameloc").is_some() { vec![] } else { vec![(case["n"].as_u64().unwrap() as usize, case["lowlevel"].as_bool().unwrap(), order, inside, Comp::parse(case["comp"].as_str().unwrap()), assign)] };
     }
     let results: Vec<CaseOut> = cases.par_iter().map(|(n, ll, o, i, c, a)| c11_case(*n, *ll, o, i, *c, a)).collect();
     for (r, (_, _, _, _, _, a)) in results.into_iter().zip(cases.iter()) {
@@ -816,6 +911,33 @@ fn c11(args: &Args) -> ! {
                 rep.machinery_errors.push(w);
             } else {
                 rep.violation(&k, &w, c);
+            }
+        }
+    }
+    // every content pack recorded with the same location string
+    {
+        let mut sl: Vec<(usize, Vec<bool>, Comp)> = vec![];
+        for n in 2..=3usize {
+            for mask in 0u32..(1 << n) {
+                for comp in [Comp::None, Comp::Zstd(5)] {
+                    sl.push((n, (0..n).map(|k| mask >> k & 1 == 1).collect(), comp));
+                }
+            }
+        }
+        if let Some(p) = &args.replay {
+            let j: J = serde_json::from_str(&std::fs::read_to_string(p).expect("replay file")).unwrap();
+            let case = if j.get("case").is_some() { &j["case"] } else { &j };
+            sl.retain(|(n, i, c)| case.get("sameloc").is_some() && case["n"] == json!(n) && case["inside"] == json!(i) && case["comp"] == json!(c.name()));
+        }
+        let out: Vec<CaseOut> = sl.par_iter().map(|(n, i, c)| sameloc_case(*n, i, *c)).collect();
+        for r in out {
+            rep.case(Some(&r.id), &r.outcome);
+            if let Some((k, w, c)) = r.violation {
+                if k.contains("MACHINERY") {
+                    rep.machinery_errors.push(w);
+                } else {
+                    rep.violation(&k, &w, c);
+                }
             }
         }
     }
